@@ -80,6 +80,16 @@ type Case struct {
 	Neighbour *Neighbour `json:"neighbour,omitempty"`
 	// History: what happened in the process before the request under test (after the hint's own flow and Prelude)
 	History []PreOp `json:"history,omitempty"`
+	// Extra: further request parameters the statement gives no authority to (logout_hint, ui_locales, unknown names), in order
+	Extra []Param `json:"extra,omitempty"`
+	// Par: the case is a concurrent step (TestInterleave, see interleave_test.go); Hint / ClientID / URI / State above are unused then
+	Par *Par `json:"par,omitempty"`
+}
+
+// Param is one additional request parameter.
+type Param struct {
+	Name  string `json:"name"`
+	Value string `json:"value"`
 }
 
 type Neighbour struct {
@@ -551,7 +561,68 @@ func genCase(t *rapid.T) Case {
 	if rapid.IntRange(0, 9).Draw(t, "mounted") < 4 {
 		c.Prov.Mount = rapid.SampledFrom(mounts).Draw(t, "mount")
 	}
+	// parameters beyond those of the statement (drawn last as well)
+	if rapid.IntRange(0, 9).Draw(t, "extraparams") < 3 {
+		c.Extra = genExtra(t, c.Clients, "x-")
+	}
 	return c
+}
+
+// Further request parameters: those RP-initiated logout defines besides the statement's (logout_hint, ui_locales) and
+// names no specification of this endpoint knows. Their values name users, clients and URIs - what an implementation
+// that trusted them would act on.
+var (
+	// what the name of a parameter suggests it identifies decides (with weight) the kind of value it gets
+	extraNames = map[string][]string{
+		"spec":   {"logout_hint", "logout_hint", "logout_hint", "ui_locales"},
+		"user":   {"login_hint", "sub", "user_id", "userID", "UserID", "user", "subject", "sid", "session_id"},
+		"client": {"azp", "aud", "client", "ClientID", "clientId"},
+		"uri":    {"redirect_uri", "redirect_uri", "RedirectURI", "PostLogoutRedirectURI", "post_logout_redirect_uris", "logout_uri", "returnTo", "redirect"},
+		"other":  {"id_token", "IdTokenHint", "prompt", "x", "ui_locales"},
+	}
+	extraValueKinds = map[string][]string{
+		"spec":   {"user", "user", "user", "client", "uri", "plain", "plain", "any"},
+		"user":   {"user", "user", "user", "user", "client", "plain", "any"},
+		"client": {"client", "client", "client", "client", "user", "plain", "any"},
+		"uri":    {"uri", "uri", "uri", "uri", "uri", "client", "plain", "any"},
+		"other":  {"user", "client", "uri", "plain", "plain", "any"},
+	}
+	extraPlain = []string{"de en", "en", "", "1", "true", "none", "fr-CA fr en", "nobody", "u-other", "*"}
+)
+
+func reservedParam(name string) bool {
+	return contains([]string{"id_token_hint", "client_id", "post_logout_redirect_uri", "state"}, name)
+}
+
+func genExtra(t *rapid.T, clients []vkit.ClientSpec, label string) []Param {
+	var out []Param
+	n := rapid.SampledFrom([]int{1, 1, 1, 2, 2, 3}).Draw(t, label+"n")
+	for i := 0; i < n; i++ {
+		l := fmt.Sprintf("%s%d-", label, i)
+		class := rapid.SampledFrom([]string{"spec", "spec", "spec", "user", "user", "client", "uri", "uri", "other"}).Draw(t, l+"class")
+		p := Param{Name: rapid.SampledFrom(extraNames[class]).Draw(t, l+"name")}
+		switch rapid.SampledFrom(extraValueKinds[class]).Draw(t, l+"kind") {
+		case "user":
+			p.Value = rapid.SampledFrom(vkit.AllUserIDs).Draw(t, l+"user")
+		case "client":
+			p.Value = rapid.SampledFrom([]string{clientA, clientB, clientUnk}).Draw(t, l+"client")
+		case "uri":
+			// what either client registered for logout or for authorization, or a foreign URI
+			var uris []string
+			for _, cl := range clients {
+				uris = append(uris, cl.PostLogoutURIs...)
+				uris = append(uris, cl.RedirectURIs[0])
+			}
+			uris = append(uris, "https://evil.example.net/out")
+			p.Value = rapid.SampledFrom(uris).Draw(t, l+"uri")
+		case "plain":
+			p.Value = rapid.SampledFrom(extraPlain).Draw(t, l+"plain")
+		default:
+			p.Value = rapid.String().Draw(t, l+"any")
+		}
+		out = append(out, p)
+	}
+	return out
 }
 
 func genCase0(t *rapid.T) Case {
@@ -1167,6 +1238,9 @@ func run(c Case) (res *vkit.Result) {
 			res.Fail("C18:panic@"+vkit.FirstLibFrame(stack), "panic outside the handler: %v", p)
 		}
 	}()
+	if c.Par != nil {
+		return runPar(c)
+	}
 	if len(c.Clients) != 2 {
 		res.Grey = true
 		res.Label("malformed-case")
@@ -1431,6 +1505,11 @@ func run(c Case) (res *vkit.Result) {
 	if c.State != "" {
 		q.Set("state", c.State)
 	}
+	for _, p := range c.Extra {
+		if !reservedParam(p.Name) {
+			q.Add(p.Name, p.Value)
+		}
+	}
 	ag := vkit.NewAgent(reqSUT)
 	ag.Host = c.Prov.Host
 	var r *vkit.Resp
@@ -1441,156 +1520,17 @@ func run(c Case) (res *vkit.Result) {
 	}
 	elapsed := time.Since(now)
 
-	// ---- the model
-	type expectation struct {
-		mustReject bool
-		mustAccept bool
-		allowed    []target // redirect targets that are acceptable
-		why        string
-	}
-	var ex expectation
-	def := target{c.Prov.DefaultLogout, "default"}
-	provenID := ""
-	clientKnownToModel := true // false: the statement does not say which client an accepting implementation would pick
-	switch {
-	case hf.present && hf.status == "invalid":
-		ex = expectation{mustReject: true, why: "invalid-hint:" + hf.why}
-	case hf.present && c.ClientID != "" && hf.azp != "" && c.ClientID != hf.azp:
-		ex = expectation{mustReject: true, why: "client_id-contradicts-azp"}
-	case hf.present && c.ClientID != "" && hf.azp == "":
-		ex = expectation{allowed: []target{def}, why: "client_id-with-azpless-hint"}
-		clientKnownToModel = false
-	default:
-		if hf.present {
-			provenID = hf.azp
-		} else {
-			provenID = c.ClientID
-		}
-		cl := byID[provenID]
-		okURI, whyURI := registered(cl, c.URI)
-		switch {
-		case c.URI != "" && okURI:
-			ex = expectation{allowed: []target{{c.URI, "requested"}}, why: "registered-" + whyURI}
-			ex.mustAccept = !hf.present || hf.status == "valid"
-			if _, perr := url.Parse(c.URI); perr != nil {
-				// a string no URI parser accepts (e.g. a '*' port): nothing can be appended to it; refusing it is fine
-				ex.mustAccept = false
-				ex.why += "+unparseable"
-			}
-		case c.URI != "":
-			ex = expectation{allowed: []target{def}, why: "unregistered:" + whyURI}
-		default:
-			ex = expectation{allowed: []target{def}, why: "no-uri"}
-			// "an expired but otherwise valid hint is still accepted for logout"
-			ex.mustAccept = hf.present && hf.status == "valid" && cl != nil
-		}
-		if hf.present && hf.status == "grey" {
-			ex.why += "+grey-hint:" + hf.why
-		}
-		if cl == nil {
-			provenID = ""
-		}
-	}
-	// soundness does not depend on the mounting; completeness does: served without an issuer in the context the
-	// provider has nothing to compare iss with and may refuse every hint (it must still never honour a bad one)
-	ctxSuffix := ""
-	if noIssuerCtx && hf.present {
-		ctxSuffix = "@no-issuer-context"
-		if ex.mustAccept {
-			ex.mustAccept = false
-			ex.why += "+no-issuer-context"
-		}
-	}
-
-	// ---- the observation
+	// ---- the model and the observation
 	var term []vkit.JEntry
 	for _, e := range st.CallsOf(r.Req) {
 		if e.Method == "TerminateSession" || e.Method == "TerminateSessionFromRequest" {
 			term = append(term, e)
 		}
 	}
-	outcome := ""
-	matched := ""
-	switch {
-	case r.Panic != nil:
-		outcome = "panic"
-		res.Fail("C18:panic@"+r.PanicFrame(), "end_session panicked (%v) on hint %q [%s]", r.Panic, hintStr, hintLabel)
-	case r.IsRedirect() && r.Location() != "":
-		outcome = "redirect"
-		loc := r.Location()
-		if ex.mustReject {
-			res.Fail("C18:accepted:"+ex.why+ctxSuffix, "request must be rejected (%s; end_session mounted as %q) but was answered %d -> %q", ex.why, mountName(c.Prov), r.Status, loc)
-		}
-		stateProblem := false
-		for _, a := range ex.allowed {
-			full, baseOnly := matchTarget(loc, a.uri, c.State)
-			if full {
-				matched = a.name
-				break
-			}
-			if baseOnly {
-				stateProblem = true
-			}
-		}
-		if matched == "" && !ex.mustReject {
-			fullReq, _ := matchTarget(loc, c.URI, c.State)
-			fullDef, _ := matchTarget(loc, def.uri, c.State)
-			switch {
-			case c.URI != "" && fullReq:
-				res.Fail("C18:redirect-to-unregistered:"+strings.SplitN(ex.why, "+", 2)[0], "redirected to the requested post_logout_redirect_uri %q although it is not registered for the proven client %q (%s): Location %q", c.URI, provenID, ex.why, loc)
-			case fullDef:
-				res.Fail("C18:registered-uri-not-honoured", "post_logout_redirect_uri %q is registered for the proven client %q (%s) but the redirect went to the default URI: %q", c.URI, provenID, ex.why, loc)
-			case stateProblem:
-				res.Fail("C18:state-or-query-altered", "redirect goes to the right URI but its query is not (existing query + state unchanged): Location %q, state %q, allowed targets %v", loc, c.State, ex.allowed)
-			default:
-				res.Fail("C18:redirect-to-unrequested", "redirected to %q, which is neither the requested URI %q nor the default %q (+state %q)", loc, c.URI, def.uri, c.State)
-			}
-		}
-		if ex.mustReject {
-			// which target a wrongly accepted request reaches is still worth a label
-			if full, _ := matchTarget(loc, c.URI, c.State); full && c.URI != "" {
-				matched = "requested"
-			} else {
-				matched = "default"
-			}
-		}
-		// the session that was terminated
-		wantUser := ""
-		if hf.present {
-			wantUser = hf.sub
-		}
-		if len(term) != 1 {
-			res.Fail("C18:terminate-calls", "accepted logout made %d TerminateSession calls (want exactly 1): %+v", len(term), term)
-		} else if !ex.mustReject {
-			e := term[0]
-			if len(e.Args) < 2 {
-				panic("harness: journal entry without args")
-			}
-			if e.Args[0] != wantUser {
-				res.Fail("C18:terminated-wrong-user", "session terminated for user %q, the hint's subject is %q (client %q)", e.Args[0], wantUser, e.Args[1])
-			}
-			if clientKnownToModel && e.Args[1] != provenID {
-				res.Fail("C18:terminated-wrong-client", "session terminated for client %q, the proven client is %q (user %q)", e.Args[1], provenID, e.Args[0])
-			}
-			if e.Method == "TerminateSessionFromRequest" && len(e.Args) >= 3 && e.Args[2] != loc {
-				// the storage echoes the URI it was handed; the response must carry it
-				if full, _ := matchTarget(loc, e.Args[2], ""); !full {
-					res.Fail("C18:storage-redirect-ignored", "storage returned redirect %q but Location is %q", e.Args[2], loc)
-				}
-			}
-		}
-	case r.Status >= 400:
-		outcome = "reject"
-		if ex.mustAccept {
-			res.Fail("C18:rejected:"+ex.why+":"+hf.status+"-"+strings.SplitN(hf.why, "+", 2)[0], "request must be accepted (%s; hint %s) but was rejected: %s", ex.why, hintLabel, r.Describe())
-		}
-		if len(term) != 0 {
-			res.Fail("C18:terminated-on-reject", "rejected request (status %d) still terminated a session: %+v", r.Status, term)
-		}
-	default:
-		outcome = "other"
-		res.Fail("C18:neither-redirect-nor-reject", "end_session neither redirected nor rejected: %s", r.Describe())
-	}
+	jin := judgeIn{prov: c.Prov, byID: byID, hf: hf, hintStr: hintStr, hintLabel: hintLabel, clientID: c.ClientID, uri: c.URI, state: c.State, extra: c.Extra, noIssuerCtx: noIssuerCtx}
+	v := expect(jin)
+	observe(res, jin, v, r, term, true)
+	ex, provenID, outcome, matched := v.ex, v.provenID, v.outcome, v.matched
 
 	// ---- the validator as a public building block, against the same model, for every registration
 	directAPI(res, c, cls)
@@ -1654,11 +1594,40 @@ func run(c Case) (res *vkit.Result) {
 	if c.Prov.ExtraPub != nil {
 		res.Label("two-published-keys")
 	}
+	// parameters beyond the statement's
+	extraClass := "none"
+	if len(c.Extra) > 0 {
+		extraClass = "spec-defined"
+		hintRel := "without-hint"
+		if hf.present {
+			hintRel = "with-hint:" + hf.status
+		}
+		for _, p := range c.Extra {
+			name := p.Name
+			if !contains(specParams, name) {
+				name, extraClass = "unknown-name", "unknown-name"
+			}
+			val := "other"
+			switch {
+			case contains(vkit.AllUserIDs, p.Value):
+				val = "names-a-user"
+				if hf.present && p.Value == hf.sub {
+					val = "names-the-hint-subject"
+				}
+			case p.Value == clientA || p.Value == clientB || p.Value == clientUnk:
+				val = "names-a-client"
+			case strings.Contains(p.Value, "://"):
+				val = "names-a-uri"
+			}
+			res.Label("extra:"+name, "extra:"+name+"/"+val+"/"+hintRel+"/"+outLabel, fmt.Sprintf("extra:%s/%s/extras:%v", name, hintRel, c.Prov.Extras))
+		}
+	}
+	res.Label("extra-params:" + extraClass)
 	if noIssuerCtx && hf.present {
 		res.Label("no-issuer-context/hint:" + hf.status + ":" + strings.SplitN(hf.why, "+", 2)[0] + "/" + outLabel)
 	}
 	res.NonTrivial = hf.present || (c.ClientID != "" && c.URI != "")
-	res.Key = fmt.Sprintf("%s|x=%v|%s|%s|%s|%s|cid=%s|%s|%s|%s|st=%s|%s", c.Prov.Router+"/"+mountName(c.Prov)+"/"+app, c.Prov.Extras, c.Prov.Method, c.Prov.IssuerMode, c.Prov.Sign.Alg, hintLabel, cidRel, c.Relation, why0, expectLabel, classOfState(c.State), outLabel)
+	res.Key = fmt.Sprintf("%s|x=%v|%s|%s|%s|%s|cid=%s|%s|%s|%s|st=%s|%s|xp=%s", c.Prov.Router+"/"+mountName(c.Prov)+"/"+app, c.Prov.Extras, c.Prov.Method, c.Prov.IssuerMode, c.Prov.Sign.Alg, hintLabel, cidRel, c.Relation, why0, expectLabel, classOfState(c.State), outLabel, extraClass)
 	res.Info = map[string]any{"hint": hintLabel, "expect": expectLabel, "why": ex.why, "status": r.Status, "location": r.Location(), "terminate": term, "proven_client": provenID, "mount": mountName(c.Prov)}
 	return res
 }
@@ -1687,9 +1656,9 @@ func directAPI(res *vkit.Result, c Case, cls []*vkit.ClientSpec) {
 
 var prop = vkit.Prop[Case]{
 	ID: "C18",
-	Rule: "cases = provider (router x issuer static/per-host x request host x TerminateSessionFromRequest capability x default logout URI x signing key/alg x optional second published key x GET/POST) x mounting of the end-session endpoint for the request under test (60% the router itself; 40% built from the same provider object through the exported API: op.RegisterServer(op.NewLegacyServer(..)) / the handler function op.EndSession on the application's mux / the application's own handler of op.ParseEndSessionRequest + op.ValidateEndSessionRequest, each without any issuer middleware and with op.NewIssuerInterceptor(provider.IssuerFromRequest) (Handler / HandlerFunc / WithHTTPMiddleware) or op.ContextWithIssuer in front; soundness (bad signature / foreign issuer / contradicting client_id never honoured, redirect target, terminated session) is asserted identically on every mounting, completeness for presented hints only where the context carries an issuer; a hint without iss on a mounting without issuer context is grey) x two generated client registrations (application type web / native / user_agent, dev mode, 0-3 post-logout URIs from a grammar incl. queries/fragments/custom schemes/'*'-containing exact entries, 0-2 post-logout globs with or without opt-in, authorization-only globs, 0-2 loopback post-logout URIs (http/https x 127.0.0.1/localhost/[::1] x port), native clients also loopback and custom-scheme authorization redirects) x id_token_hint (absent, empty, issued by the provider through an implicit or code flow (also at another host), forged with the provider's key: unexpired / expired / signed by a rotated published key / azp-less / unknown azp; signed by an unpublished key; 7 tamperings; 7 wrong issuers; kid / alg / claim oddities (grey); garbage) x client_id (absent, azp, other client, unknown) x the earlier life of the process (40% of the cases: a neighbouring provider in the same process with its own storage / registrations / signing key published under the SAME kid and the same or an own issuer; 0-3 earlier events in generated order: ordinary logouts and implicit flows + logout at this provider (either host, hint signed by any published key) or at the neighbour, key changes of this provider's storage: rotation with the old key kept / withdrawn (new or same kid), withdrawal of the second published key; hints signed by the neighbour's key under this provider's kid or by a key the storage has withdrawn (also real ID tokens issued before the withdrawal) are must-reject: 'validly signed' = under a key the storage serves at the time of the request) x post_logout_redirect_uri (registered, other client's, 20 near-miss relations, loopback variants of a registered loopback URI (other/no port, other loopback host spelling, other scheme, all three; port variant of an authorization-only loopback redirect) which are must-not-redirect for every application type, glob hit/miss/literal, default, omitted) x arbitrary state; " +
+	Rule: "cases = provider (router x issuer static/per-host x request host x TerminateSessionFromRequest capability x default logout URI x signing key/alg x optional second published key x GET/POST) x mounting of the end-session endpoint for the request under test (60% the router itself; 40% built from the same provider object through the exported API: op.RegisterServer(op.NewLegacyServer(..)) / the handler function op.EndSession on the application's mux / the application's own handler of op.ParseEndSessionRequest + op.ValidateEndSessionRequest, each without any issuer middleware and with op.NewIssuerInterceptor(provider.IssuerFromRequest) (Handler / HandlerFunc / WithHTTPMiddleware) or op.ContextWithIssuer in front; soundness (bad signature / foreign issuer / contradicting client_id never honoured, redirect target, terminated session) is asserted identically on every mounting, completeness for presented hints only where the context carries an issuer; a hint without iss on a mounting without issuer context is grey) x two generated client registrations (application type web / native / user_agent, dev mode, 0-3 post-logout URIs from a grammar incl. queries/fragments/custom schemes/'*'-containing exact entries, 0-2 post-logout globs with or without opt-in, authorization-only globs, 0-2 loopback post-logout URIs (http/https x 127.0.0.1/localhost/[::1] x port), native clients also loopback and custom-scheme authorization redirects) x id_token_hint (absent, empty, issued by the provider through an implicit or code flow (also at another host), forged with the provider's key: unexpired / expired / signed by a rotated published key / azp-less / unknown azp; signed by an unpublished key; 7 tamperings; 7 wrong issuers; kid / alg / claim oddities (grey); garbage) x client_id (absent, azp, other client, unknown) x the earlier life of the process (40% of the cases: a neighbouring provider in the same process with its own storage / registrations / signing key published under the SAME kid and the same or an own issuer; 0-3 earlier events in generated order: ordinary logouts and implicit flows + logout at this provider (either host, hint signed by any published key) or at the neighbour, key changes of this provider's storage: rotation with the old key kept / withdrawn (new or same kid), withdrawal of the second published key; hints signed by the neighbour's key under this provider's kid or by a key the storage has withdrawn (also real ID tokens issued before the withdrawal) are must-reject: 'validly signed' = under a key the storage serves at the time of the request) x post_logout_redirect_uri (registered, other client's, 20 near-miss relations, loopback variants of a registered loopback URI (other/no port, other loopback host spelling, other scheme, all three; port variant of an authorization-only loopback redirect) which are must-not-redirect for every application type, glob hit/miss/literal, default, omitted) x arbitrary state x further request parameters (30% of the cases: 1-3 of logout_hint / ui_locales (defined by RP-initiated logout, no authority in the statement) and names no specification of the endpoint knows (login_hint, sub, user_id, UserID, sid, azp, aud, redirect_uri, id_token, ...), values naming users / clients / registered (for logout or for authorization) and foreign URIs / locales / arbitrary strings - weighted by what the name suggests: user-like names mostly get user ids, client-like names client ids, uri-like names URIs - with and without id_token_hint: the Location and the terminated session are judged as without them - the journal must name the hint's subject (without a hint: no user) and the proven client; must-accept is kept with the spec-defined parameters, dropped with unknown names); " +
 		"oracle = independent model of (hint validity, proven client, registration) -> must-accept(requested|default) / must-reject / default-or-reject, Location compared as a user agent reads it (same URI, existing query kept, exactly one state=<state>), journal of TerminateSession*; sane registrations only (absolute URIs, glob patterns with '*' only); " +
-		"non-trivial = a hint is presented, or client_id together with a post_logout_redirect_uri; distinct = (router, mounting, application type, capability, method, issuer mode, alg, hint class, client_id relation, URI relation, model reason, expectation, state class, outcome)",
+		"non-trivial = a hint is presented, or client_id together with a post_logout_redirect_uri; distinct = (router, mounting, application type, capability, method, issuer mode, alg, hint class, client_id relation, URI relation, model reason, expectation, state class, outcome, class of further parameters); concurrent steps: see TestInterleave",
 	Gen: genCase,
 	Run: run,
 }
